@@ -156,7 +156,9 @@ func (c *RegConfig) ParseOrResolveBlocklisted(provided string) (string, bool) {
 	if err != nil {
 		return "", lookup
 	}
-	if addr == nil || c.isBlocklistedCovertAddr(addr.IP) {
+	// An empty host (":443") resolves without error to an address that has no IP; it would pass
+	// every subnet check and be dialed as the local host.
+	if addr == nil || addr.IP == nil || c.isBlocklistedCovertAddr(addr.IP) {
 		return "", lookup
 	}
 	return net.JoinHostPort(addr.String(), port), lookup
